@@ -73,6 +73,7 @@ def run_case(cs, ctx):
     outdir = ge.fresh_outdir(ctx.workdir, 'c08')
     argv = ge.to_argv(v, outdir, rng)
     case = {'cs': cs, 'vector': v, 'argv': [a if a != outdir else '<outdir>' for a in argv]}
+    retry_case = False
     rerun = (not coverage_run) and cs % 10 == 3
     if rerun:
         # the directory already exists and already holds files of an earlier run
@@ -92,8 +93,13 @@ def run_case(cs, ctx):
         _sh.rmtree(_os.path.join(outdir, '1.txt'), ignore_errors=True)
         ctx.cov('retry_after_a_run_that_died_half_way')
         rerun = True
+        retry_case = True
     res = ge.run_generator(argv, cs)
     ctx.cnt('generator_runs')
+    if retry_case and (res['exit'] is not None or res['exc'] is not None):
+        ctx.finding(en.F('C08', 'retry_after_failed_run', 'an earlier run into this directory died half way (1.txt could not be written); after the '
+                         'obstacle was removed the same accepted run fails: exit=%r exc=%r' % (res['exit'], res['exc'])), case)
+        return
     if res['exit'] is not None or res['exc'] is not None:
         # acceptance of legal vectors is C15's monitor; here the run is unobservable
         ctx.cnt('unobservable_generator_failed')
